@@ -944,12 +944,15 @@ func (a *vzAdv) injectReplay() {
 	for k, v := range ch.Proof.Proofs {
 		proof.Proofs[k] = append([]gcrypto.SparseSignature(nil), v...)
 	}
-	kind := s.Choose("replay-kind", 7)
+	kind := s.Choose("replay-kind", 8)
 	if a.genuineReplay {
 		kind = 0
 	}
 	desc, expect := "genuine committed header", "valid-replay"
 	switch kind {
+	case 7: // the genuine header and signatures, but the certificate claims a later round than the one the precommits were made for
+		proof.Round = ch.Proof.Round + 1 + uint32(s.Choose("relabel", 2))
+		desc, expect = "genuine header whose certificate is labelled with a later round than its precommits were signed for", "corrupt-replay"
 	case 6: // genuine header, validator list and hashes; only the redundant PubKeys slice names foreign keys, which sign the certificate
 		vs := hdr.ValidatorSet
 		vs.PubKeys = append([]gcrypto.PubKey(nil), a.foreignVals.PubKeys...)
